@@ -104,12 +104,17 @@ class Parser:
     def parse_int(self, token: Token) -> int:
         """Return the value of a NUMBER or INTEGER token.
 
-        Python refuses to convert absurdly long digit strings.
+        Python refuses to convert absurdly long digit strings, and pest reads
+        repetition counts as `u32` and stack slice indices as `i32`.
         """
         try:
-            return int(token.value)
+            value = int(token.value)
         except ValueError as err:
             raise PestGrammarSyntaxError("number out of range", token=token) from err
+
+        if not -(2**31) <= value < 2**32:
+            raise PestGrammarSyntaxError("number out of range", token=token)
+        return value
 
     def parse(self) -> tuple[dict[str, GrammarRule], list[str]]:
         grammar_doc: list[str] = []
